@@ -112,6 +112,8 @@ func TestC16(t *testing.T) {
 	p = c.rec.NewPart("boundary_inputs", "slot-, clip- and length-boundary inputs (see C06), incl. multi-byte characters across the 31-byte clip and BOM-prefixed fixtures", false, true, "")
 	c.ParRange(p, int64(len(bnd)), func(w *Worker, i int64) { judge(w, bnd[i]) })
 
+	p = c.rec.NewPart("source_dictionary", fmt.Sprintf("%d lead constructs (closed and open literals of every kind, numbers, words, punctuation, comments) x blank? x W x blank? x every tail of 0..3 symbols over %q, for each word W (as written, upper, lower) that occurs as a literal in the SQLi source files and is not a table key", len(sqlDictLeads), sqlDictTail), false, true, "")
+	c.sqlDictInputs(p, judge)
 	p = c.rec.NewPart("rapid_fragments", "rapid over the SQL fragment grammar", true, false, "")
 	g := gen.SQLInput()
 	c.Rapid(p, 8, pick(60000, 800000), func(rt *rapid.T, sh int) ev.Case { return c16Case(g.Draw(rt, "in")) })
